@@ -618,5 +618,5 @@ def obligations(tier):
             make_history("C15.history.gdf_data", "gdf_data", 2, dom={"*": {"proj": [None, "P1"], "eng": ["spatialpandas"], "override": [False]}}),
             make_history("C15.history.line3", "line", 3, tiers=("thorough",), dom={"*": {"proj": [None, "P1"]}}),
             make_history("C15.history.poly3", "poly_data", 3, tiers=("thorough",), dom={"*": {"proj": [None, "P1"], "override": [False]}}),
-            make_history("C15.history.gdf_data3", "gdf_data", 3, tiers=("thorough",), dom={"*": {"proj": [None, "P1"], "override": [False]}})]
+            make_history("C15.history.gdf_data3", "gdf_data", 3, tiers=("thorough",), dom={"*": {"pe": ["exclude", "split"], "proj": [None, "P1"], "eng": ["spatialpandas"], "override": [False]}})]
     return [o for o in obs if tier in o.tiers]
